@@ -60,8 +60,13 @@ def cases(draw):
         dev["maxdata_by_connection"] = [m1, m]
         first = {"op": "push", "src": {"kind": "bytesio", "content": {"pat": b"1st", "n": draw(st.sampled_from([0, 5, 70000]))}}, "path": "/first", "mode": 0o100644, "mtime": 1, "cb": None}
         ops = [first, dict(conn, op="connect"), op]
+    total = sum(c["n"] for _, c in src["files"]) if kind == "dir" else src["content"]["n"]
+    if kind == "dir" and not op["chdir_into"]:
+        # the working directory is some other directory that has sub-directories and files with the same names as the pushed files
+        op["cwd_decoys"] = draw(st.sampled_from([None, None, "dirs", "files"]))
     return {"api": draw(st.sampled_from(["sync", "async"])), "device": dev, "dev_tape": draw(sc.dev_tape(12)),
-            "transport": {"flavour": draw(sc.flavour())}, "connect": conn, "ops": ops,
+            # the link may accept fewer bytes than offered per write call (it reports the count): the sync stream must come out the same
+            "transport": {"flavour": draw(sc.flavour()), "wcap": draw(sc.wcap_tape(total + 2000, p_none=0.5))}, "connect": conn, "ops": ops,
             "t0": draw(st.sampled_from([1000000.0, 1700000000.75, 4294967290.5]))}
 
 
